@@ -39,7 +39,10 @@ type Seq[S any] struct {
 	// instance is then discarded). err != nil is an oracle violation.
 	Apply     func(s S, op int) (enabled bool, err error)
 	Key       func(s S) string
-	Invariant func(s S) error // optional, evaluated in every state
+	Invariant func(s S) error // optional, evaluated in every state (must not mutate)
+	// Final, if set, is a destructive check run on the instance after Key was taken and
+	// just before it is discarded (e.g. a query that has side effects in the real code).
+	Final func(s S) error
 	MaxDepth  int
 	MaxStates int // 0 = unlimited
 	// Observe, if set, returns a label for the distinct-outcome count (evidence only).
@@ -118,6 +121,11 @@ func (q *Seq[S]) Explore(r *Run) SeqResult {
 				if !en {
 					fmt.Printf("REPLAY: op %d not enabled\n", i)
 					break
+				}
+				if i == len(req.Ops)-1 && q.Final != nil {
+					if err := q.Final(s); err != nil {
+						q.report(r, req.Ops, err)
+					}
 				}
 			}
 			res.States, res.Transitions, res.Traces = 1, int64(len(req.Ops)), 1
@@ -223,6 +231,15 @@ func (q *Seq[S]) Explore(r *Run) SeqResult {
 					mu.Lock()
 					obs[o] = struct{}{}
 					mu.Unlock()
+				}
+				if q.Final != nil {
+					if err := q.Final(s); err != nil {
+						q.report(r, ops, err)
+						if q.Close != nil {
+							q.Close(s)
+						}
+						continue
+					}
 				}
 				local = append(local, cand{ops: ops, key: k})
 				if q.Close != nil {
